@@ -24,10 +24,12 @@
 package main
 
 import (
+	"bytes"
 	"context"
 	"encoding/json"
 	"fmt"
 	"os"
+	"os/exec"
 	"runtime"
 	"sort"
 	"strings"
@@ -1087,9 +1089,100 @@ func enumCases(depth int) []Case {
 	return out
 }
 
+// ---- restart stress (separate process: a panic in a goroutine of the code under test cannot be
+// recovered in-process) ----
+
+// stressChild repeats: a job blocks; Stop (its goroutine waits for the job waiter); Start again;
+// then the blocked job returns while the restarted loop launches new jobs.
+func stressChild(iters int) {
+	waitParked := func(clk *VClock, prev *vtimer) *vtimer {
+		for i := 0; i < 2000000; i++ {
+			if t := clk.Last(); t != nil && t != prev && !t.Fired() {
+				return t
+			}
+			runtime.Gosched()
+		}
+		return clk.Last()
+	}
+	for i := 0; i < iters; i++ {
+		clk := NewVClock(toTime(10))
+		c := cron.New(cron.WithClock(clk), cron.WithLocation(time.UTC), cron.WithLogger(cron.DiscardLogger))
+		rel := make(chan struct{})
+		began := make(chan struct{}, 64)
+		c.Schedule(goSched{SchedDesc{K: "p", P: 1, O: 1}}, cron.FuncJob(func() {
+			select {
+			case began <- struct{}{}:
+			default:
+			}
+			<-rel
+		}))
+		c.Start()
+		tm := waitParked(clk, nil)
+		clk.Advance(toTime(11))
+		<-began
+		tm = waitParked(clk, tm)
+		ctx := c.Stop()
+		c.Start()
+		tm = waitParked(clk, tm)
+		go close(rel)
+		for k := 12; k < 15; k++ {
+			clk.Advance(toTime(k))
+			tm = waitParked(clk, tm)
+		}
+		select {
+		case <-ctx.Done():
+		case <-time.After(waitLimit):
+			fmt.Fprintln(os.Stderr, "STRESS: stop context never done")
+			os.Exit(3)
+		}
+		<-c.Stop().Done()
+	}
+}
+
+func runStress(res *lib.Result, iters int) {
+	cmd := exec.Command(os.Args[0])
+	cmd.Env = append(os.Environ(), fmt.Sprintf("C05_STRESS_CHILD=%d", iters))
+	var errb bytes.Buffer
+	cmd.Stderr = &errb
+	done := make(chan error, 1)
+	if err := cmd.Start(); err != nil {
+		res.Note("restart stress could not start: " + err.Error())
+		return
+	}
+	go func() { done <- cmd.Wait() }()
+	var err error
+	select {
+	case err = <-done:
+	case <-time.After(120 * time.Second):
+		cmd.Process.Kill()
+		err = fmt.Errorf("timeout")
+	}
+	res.Hit("restart-stress-iterations:" + fmt.Sprint(iters))
+	cs := map[string]any{"family": "restart-stress", "script": "add blocking job; Start; advance (job begins, blocks); Stop; Start; release the job while advancing the clock over the next activations", "iterations": iters}
+	if err != nil {
+		msg := errb.String()
+		if len(msg) > 1200 {
+			msg = msg[:1200]
+		}
+		id := "restart-crash"
+		if strings.Contains(msg, "WaitGroup is reused") {
+			id = "stop-waitgroup-reuse-panic"
+		} else if strings.Contains(msg, "never done") {
+			id = "stop-ctx-never-done"
+		}
+		res.Violate(id, "process running Stop; Start; job return || job launch died: "+err.Error()+": "+msg, cs)
+	}
+}
+
 // ---- main ----
 
 func main() {
+	if v := os.Getenv("C05_STRESS_CHILD"); v != "" {
+		n := 0
+		fmt.Sscan(v, &n)
+		stressChild(n)
+		return
+	}
 	fl := lib.ParseFlags()
 	res := lib.NewResult("a history is non-trivial if the scheduler was started, at least one job start was observed, and the history contains a Remove, a Stop or a forced add/remove/stop-vs-wake race; distinct = distinct observable traces")
 	verifhook.Set(hookCB)
@@ -1214,6 +1307,13 @@ func main() {
 		}
 	}
 	flush()
+	if fl.Replay == "" {
+		it := 20000
+		if fl.Tier == "thorough" || fl.Search {
+			it = 300000
+		}
+		runStress(res, it)
+	}
 	res.Exhaustive = false
 	res.Note(fmt.Sprintf("%d histories in %.1fs (small-scope enumeration: %d)", len(cases), time.Since(t0).Seconds(), len(cases)-countRandom(cases)))
 	res.Write(fl.Out)
